@@ -1,4 +1,6 @@
 import RTV.Model.Seq
+import RTV.Model.Url
+import RTV.Gen.Tlds
 import RTV.Model.Preprocess
 import RTV.Model.ChoiceEnv
 import RTV.Gen.Regexes
@@ -28,6 +30,27 @@ structure SeqEnv where
 
 def genSeqEnv : SeqEnv := ⟨RTV.Gen.reTables, pyChars, RTV.Preprocess.lowerFull RTV.Gen.lowerPairs RTV.Gen.lowerExpanding⟩
 def fastSeqEnv : SeqEnv := ⟨RTV.Choice.fastTables, fastChars, RTV.Choice.fastLowerC⟩
+
+def urlEnvOf (E : SeqEnv) : RTV.Url.UrlEnv where
+  T := E.T
+  K := E.K
+  ipUrl := RTV.Gen.ipUrlRegex
+  url := RTV.Gen.urlRegex
+  url2 := RTV.Gen.urlRegex2
+  timeTerm := RTV.Gen.urlAmbiguousTimeTerm
+  gTld := RTV.Gen.urlRegex_g_Tld
+  gTld2 := RTV.Gen.urlRegex2_g_Tld
+  tlds := RTV.Gen.tldList
+
+/-- `recognize_url(q, 'en-us')`: `QueryProcessor.preprocess`, `BaseURLExtractor.extract`, `SequenceParser.parse`
+(value = text); an exception inside the `try` yields no entity. Fields: type name, start, end, text, value. -/
+def urlModelRun (E : SeqEnv) (q : Str) : List (Str × Nat × Int × Str × Str) :=
+  match RTV.Preprocess.preprocess RTV.Gen.recodePairs E.lowerC false [] q with
+  | none => []
+  | some p =>
+    match RTV.Url.urlExtract (urlEnvOf E) p with
+    | none => []
+    | some ers => ers.map fun r => (ofString "url", r.start, (r.start : Int) + r.len - 1, r.text, r.text)
 
 /-- `recognize_ip_address(q, culture)`: `zh` = the Chinese configuration (zh-*, ja-*), else English. No preprocessing
 (`IpAddressModel.parse` passes the query as it is). Fields: type name, text, resolution `value`. -/
